@@ -32,3 +32,18 @@ Check C17_forced_schedule_is_completion_order : forall n order,
   NoDup order -> (forall id, In id order -> id < N.of_nat n) ->
   run_driver n order = order ++ filter (fun id => negb (existsb (N.eqb id) order)) (map N.of_nat (seq 0 n)).
 Print Assumptions C17_forced_schedule_is_completion_order.
+Check C17_node_reads_whole_messages : forall (body : msg -> list N) (evs : list dev) (chunks : list (list N)),
+  (forall m, no_nl (body m)) ->
+  let s := drun body evs dinit in
+  concat chunks = d_out s ->
+  fst (feed [] chunks) = map body (d_done s).
+Print Assumptions C17_node_reads_whole_messages.
+Check C17_runs_without_input_are_bounded : forall (body : msg -> list N) (evs : list dev) (s : dst),
+  forallb (fun e => negb (is_input e)) evs = true ->
+  (forall k e, nth_error evs k = Some e -> effective body (drun body (firstn k evs) s) e) ->
+  (length evs <= pot body s)%nat.
+Check C17_nothing_left_to_do_means_all_answered : forall (body : msg -> list N) (s : dst),
+  (forall e, is_input e = false -> ~ effective body s e) -> quiescent s = true.
+Check (eq_refl : effective = fun body s e => dstepm body s e <> s).
+Print Assumptions C17_runs_without_input_are_bounded.
+Print Assumptions C17_nothing_left_to_do_means_all_answered.
